@@ -253,38 +253,66 @@ def showEvent : Event → String
 
 /-! ## environment of the line -/
 
-def envOf (h : Hist) : Env :=
+/-- The CLA addresses the implementation handed the bundle with this (source, time) to in event `evNo`. -/
+def observedFor (h : Hist) (evNo : Nat) (k : Key) : List Nat :=
+  match h.obs[evNo]? with
+  | some o => o.outs.filterMap fun out =>
+      match out with
+      | .sent p b _ => if b.src == k.src && b.ts == k.ts then some p.addr else none
+      | _ => none
+  | none => []
+
+/-- The environment of the line. The iteration order of `Manager.Sender()` (a `sync.Map`) is not
+observable; the order used for the model puts `lead` first, then the CLAs the implementation actually
+handed the bundle to in this event, then the rest. -/
+def envOf (h : Hist) (lead : List Nat) : Env :=
   { sendOk := fun addr tag n =>
       match h.oracle.find? (fun e => e.1 == (addr, tag)) with
       | some (_, pat) => if pat.isEmpty then true else pat.getD (n % pat.length) true
       | none => true
-    prefer := fun evNo k =>
-      match h.obs[evNo]? with
-      | some o => o.outs.filterMap fun out =>
-          match out with
-          | .sent p b _ => if b.src == k.src && b.ts == k.ts then some p.addr else none
-          | _ => none
-      | none => []
+    prefer := fun evNo k => lead ++ observedFor h evNo k
     cand := fun e b => h.cand.contains (e, b.dst) }
 
+/-- Candidate orders for one event. Only the sensor-mule wrapper over a spray variant needs more than
+one: a sensor node the algorithm picked and the wrapper dropped again leaves no trace (its copy and
+its list entry are given back), but it used up a slot of the copy budget; so "j sensor CLAs first"
+for j = 0, 1, … are all possible. -/
+def leads (h : Hist) : List (List Nat) :=
+  let spray := h.cfg.algo == .spray || h.cfg.algo == .binarySpray
+  if h.cfg.mule && spray then
+    let sensors := (h.peers.filter (fun p => h.cfg.sensorNodes.contains p.eid.node)).map (·.addr)
+    (List.range (sensors.length + 1)).map (fun j => sensors.take j) ++
+      (List.range (sensors.length + 1)).map (fun j => sensors.reverse.take j)
+  else [[]]
 
-/-- Replay on the model; `none` = agreement, `some detail` = first disagreement. -/
+/-- Compare one step of the model with the observation. -/
+def stepDiff (h : Hist) (lead : List Nat) (n : Node) (i : Nat) (o : Obs) : Node × Option String :=
+  let r := step (envOf h lead) n o.ev
+  let mo := normOuts r.2
+  let go_ := normOuts o.outs
+  if mo != go_ then
+    (r.1, some s!"ev={i}:{showEvent o.ev} sends model={showOuts mo} impl={showOuts go_}")
+  else
+    let mv := normView (viewOf r.1)
+    let gv := normView o.view
+    if mv != gv then
+      (r.1, some s!"ev={i}:{showEvent o.ev} store model={showView mv} impl={showView gv}")
+    else (r.1, none)
+
+/-- Replay on the model; `none` = agreement, `some detail` = first disagreement. Every event is tried
+with the candidate orders in turn; the state (store and spray bookkeeping) is compared in full after
+every event, so the first order that reproduces the observation determines the continuation. -/
 def replay (h : Hist) : Option String :=
-  let env := envOf h
   let rec go (n : Node) (i : Nat) : List Obs → Option String
     | [] => none
     | o :: os =>
-      let r := step env n o.ev
-      let mo := normOuts r.2
-      let go_ := normOuts o.outs
-      if mo != go_ then
-        some s!"ev={i}:{showEvent o.ev} sends model={showOuts mo} impl={showOuts go_}"
-      else
-        let mv := normView (viewOf r.1)
-        let gv := normView o.view
-        if mv != gv then
-          some s!"ev={i}:{showEvent o.ev} store model={showView mv} impl={showView gv}"
-        else go r.1 (i + 1) os
+      let tries := (leads h).map fun lead => stepDiff h lead n i o
+      match tries.find? (fun t => t.2.isNone) with
+      | some t => go t.1 (i + 1) os
+      | none =>
+        match tries.head? with
+        | some t => t.2
+        | none => some "no candidate order"
   go (init h.cfg h.now) 0 h.obs
 
 /-- Judge one line with the given Spec clause set. -/
